@@ -115,6 +115,10 @@ def check(ctx):
                 "missing / malformed lease files, domains incl. over-long labels, empty string) for all 15 built-in plugins and both protocols, one process per "
                 "vector; accepted handlers run a battery of 8-16 requests; replies must serialise and parse back identically")
     st = _stats(t)
+    if prop in ("C14", "C17"):
+        # in composition (whole chains, Conv): identifiers / options of exactly the plugins that ran, default lease time only when none is set
+        from . import fam_conv
+        st.update(fam_conv.run(ctx))
     st["binding_selftest"] = selftest(ctx, t) if not ctx.violations else {"skipped": "violations reported"}
     ctx.trusted += ["harness/plugins.go: request construction through the codec, this file's own encoders of the configured values (addresses, uint16/uint32, "
                     "RFC 1035 labels, RFC 3442 routes, DUIDs, RFC 5970 parameters) and byte comparison with the serialised reply", "TLC evaluation of PluginsTrace guards"]
@@ -127,6 +131,9 @@ def check(ctx):
 
 def replay(ctx, path):
     meta = json.load(open(os.path.join(path, "meta.json")))
+    if meta.get("family") == "conv":
+        from . import fam_conv
+        return fam_conv.replay(ctx, path)
     args = meta.get("rerun_args")
     if not args:
         raise Infra("replay meta has no rerun_args")
